@@ -35,7 +35,7 @@ def histories(rng, tier):
                 for _ in range(2 if tier == "quick" else 40):
                     acts = [st, ("dump",)]
                     if rng.random() < 0.25:
-                        acts.insert(1, ("threads", rng.choice([2, 3, 4])))      # "any threading model"
+                        acts.insert(1, ("threads", rng.choice(regcheck.thread_counts())))      # "any threading model"
                     if rng.random() < 0.2 and n:
                         acts.insert(1, ("apply", ("h", rng.randrange(1, 1 << n))))
                     acts.append(("sample", c))
